@@ -219,7 +219,8 @@ CHECKS = {
              "operand types validated by the frontend (G-OPTYPES). Decides that the reachable set equals the audited set and that "
              "guards are in place, not that every audited reason is true for all inputs. The comparison functions' own panic sites "
              "are discharged semantically: evaluated on every operand pair the frontend admits (null on either side included) they "
-             "never reach a panic.",
+             "never reach a panic; the @recurse entry / exit closures are evaluated in sequence on every arriving context shape "
+             "(source vertex absent included): no panic and the context is restored.",
         note="trusted: the hand-made audit reasons; the curated list of panicking std APIs; the adapter honours its contract; "
              "nine genuine defects are listed in known_findings.json (three more were repaired in /repo)",
         technique="static analysis: call-graph reachability + panic-site inventory against an audit table + structural guard rules",
